@@ -3,4 +3,5 @@ EXTENDS PyDefs
 ASSUME PrintT("CLOSURE " \o ToString(ClosureByPositionOnly))
 ASSUME PrintT("CONSTRUCTOR " \o ToString(ConstructorDirectlyInClass))
 ASSUME Emit
+ASSUME EmitLists
 =============================================================================
